@@ -308,6 +308,12 @@ let dispatch (req : Sexp.t) : Sexp.t =
         let sts = (match styles with L [] -> gen_all_styles | x -> get_list get_style x) in
         put_list (fun m -> L [put_bytes m.cm_full; put_bytes m.cm_repl; put_style m.cm_style; put_nat m.cm_start; put_nat m.cm_end])
           (find_compound_variants (get_bytes i) (get_bytes s) (get_bytes r) sts)
+      | "identifiers", [styles; c] ->
+        put_list (fun ((a, b), id) -> L [put_nat a; put_nat b; put_bytes id]) (ident_find_all (get_list get_style styles) (get_bytes c))
+      | "enhanced", [c; s; r; keys; styles; extra] ->
+        put_list (fun m -> L [put_nat m.e_line; put_nat m.e_col; put_nat m.e_start0; put_nat m.e_end; put_bytes m.e_variant; put_bytes m.e_text])
+          (find_enhanced_matches (get_bytes c) (get_bytes s) (get_bytes r) (get_list get_bytes keys) (get_list get_style styles)
+             (get_opt (get_list get_nat) extra))
       | "compatible_styles", [t; styles] -> put_list put_style (compatible_styles (get_bytes t) (get_list get_style styles))
       | "clap_accepts", [argv] -> put_pres (clap_accepts (get_list get_bytes argv))
       | "wrapper_names", [] ->
